@@ -33,7 +33,7 @@ cd ${MUTREPO:-/repo}; [ -z "$(git status --porcelain --untracked-files=no)" ] ||
 git apply $OUT/patch.diff || { echo "patch does not apply to /repo"; exit 2; }
 results="{"
 for c in $CHECKS; do
-  out=$(${MUTCHECK:-/verif/check} $c ${TIER:-quick} 2>&1); code=$?
+  out=$(VERIF_WALL=${VERIF_WALL:-$([ "${TIER:-quick}" = quick ] && echo 300 || echo 3000)} ${MUTCHECK:-/verif/check} $c ${TIER:-quick} 2>&1); code=$?
   first=$(echo "$out" | grep -A1 "^VIOLATION" | grep "oracle=" | head -1 | cut -c1-300)
   echo "check $c ${TIER:-quick} -> exit $code ${first}"
   results="$results\"$c\": {\"exit\": $code, \"first_violation\": $(python3 -c 'import json,sys; print(json.dumps(sys.argv[1]))' "$first")},"
